@@ -120,7 +120,7 @@ class Run:
             try: key=options[0].get_id()
             except Exception: key=None
             if key is not None and key in self.forced:
-                k=self.forced[key]
+                k=self.forced[key][0]
                 self.dec.append(k); self.labels.append(label)
                 self.solver.add(options[k])
                 return k
@@ -145,7 +145,7 @@ class Run:
         if self.stop_at_new: raise _NewDecision(feas)
         for k in reversed(feas[1:]): eng.work.append(self.dec+[k])
         k=feas[0]
-        if len(feas)==1 and key is not None and len(self.dec)>=len(self.prefix): self.forced[key]=k
+        if len(feas)==1 and key is not None and len(self.dec)>=len(self.prefix): self.forced[key]=(k,options[0])
         if len(feas)>1 and self.model is not None and options[k] is not True:
             # the current model may not satisfy the taken option any more
             try:
@@ -313,6 +313,7 @@ class Engine:
             prefix=self.work.pop()
             self.solver.push()
             run=Run(self,prefix)
+            BYTE_INFO.clear()
             try:
                 args,ghost=mk_args(run)
                 try:
